@@ -838,6 +838,15 @@ class ASTStubGenerator(BaseStubGenerator, mypy.traverser.TraverserVisitor):
 
     def visit_class_def(self, o: ClassDef) -> None:
         self._class_stack.append(o)
+        outer_state = (
+            self.method_names,
+            self.processing_dataclass,
+            self.dataclass_field_specifier,
+            self.processing_enum,
+        )
+        self.processing_dataclass = False
+        self.dataclass_field_specifier = ()
+        self.processing_enum = False
         self.method_names = find_method_names(o.defs.body)
         sep: int | None = None
         if self.is_top_level() and self._state != EMPTY:
@@ -884,11 +893,13 @@ class ASTStubGenerator(BaseStubGenerator, mypy.traverser.TraverserVisitor):
             self._state = EMPTY_CLASS
         else:
             self._state = CLASS
-        self.method_names = set()
-        self.processing_dataclass = False
-        self.dataclass_field_specifier = ()
+        (
+            self.method_names,
+            self.processing_dataclass,
+            self.dataclass_field_specifier,
+            self.processing_enum,
+        ) = outer_state
         self._class_stack.pop(-1)
-        self.processing_enum = False
 
     def get_base_types(self, cdef: ClassDef) -> list[str]:
         """Get list of base classes for a class."""
@@ -987,11 +998,15 @@ class ASTStubGenerator(BaseStubGenerator, mypy.traverser.TraverserVisitor):
                 and self.is_alias_expression(o.rvalue)
                 and not self.is_private_name(lvalue.name)
             ):
-                is_explicit_type_alias = (
-                    o.unanalyzed_type and getattr(o.type, "name", None) == "TypeAlias"
+                alias_ann = getattr(o.unanalyzed_type, "name", None) if o.unanalyzed_type else None
+                is_explicit_type_alias = alias_ann is not None and self.resolve_name(alias_ann) in (
+                    "typing.TypeAlias",
+                    "typing_extensions.TypeAlias",
                 )
                 if is_explicit_type_alias:
-                    self.process_typealias(lvalue, o.rvalue, is_explicit_type_alias=True)
+                    self.process_typealias(
+                        lvalue, o.rvalue, is_explicit_type_alias=True, alias_annotation=alias_ann
+                    )
                     continue
 
                 if not o.unanalyzed_type:
@@ -1220,12 +1235,16 @@ class ASTStubGenerator(BaseStubGenerator, mypy.traverser.TraverserVisitor):
             return False
 
     def process_typealias(
-        self, lvalue: NameExpr, rvalue: Expression, is_explicit_type_alias: bool = False
+        self,
+        lvalue: NameExpr,
+        rvalue: Expression,
+        is_explicit_type_alias: bool = False,
+        alias_annotation: str = "TypeAlias",
     ) -> None:
         p = AliasPrinter(self)
         if is_explicit_type_alias:
-            self.import_tracker.require_name("TypeAlias")
-            self.add(f"{self._indent}{lvalue.name}: TypeAlias = {rvalue.accept(p)}\n")
+            self.import_tracker.require_name(alias_annotation)
+            self.add(f"{self._indent}{lvalue.name}: {alias_annotation} = {rvalue.accept(p)}\n")
         else:
             self.add(f"{self._indent}{lvalue.name} = {rvalue.accept(p)}\n")
         self.record_name(lvalue.name)
@@ -1323,8 +1342,7 @@ class ASTStubGenerator(BaseStubGenerator, mypy.traverser.TraverserVisitor):
             if (
                 isinstance(annotation, UnboundType)
                 and not annotation.args
-                and annotation.name == "Final"
-                and self.import_tracker.module_for.get("Final") in self.TYPING_MODULE_NAMES
+                and self.resolve_name(annotation.name) in ("typing.Final", "typing_extensions.Final")
             ):
                 # Final without type argument is invalid in stubs.
                 final_arg = self.get_str_type_of_node(rvalue)
